@@ -48,8 +48,12 @@ def renoBetaShift : Nat := (-Uquic.Gen.Congestion.renoBetaExp).toNat
 `float64(w)` = `rne53 w` (exact for `w < 2^53`), the product with the binary64 constant
 `renoBetaMant·2^-renoBetaShift` is `rne53 (rne53 w * renoBetaMant) · 2^-renoBetaShift`
 (IEEE-754 round-to-nearest-even, no FMA involved: a single multiplication), and the
-conversion to `int64` truncates toward zero. -/
-def renoCut (w : Nat) : Nat :=
-  rne53 (rne53 w * renoBetaMant) / 2 ^ renoBetaShift
+conversion to `int64` truncates toward zero.
+
+(Written as a match on `w` — `float64(0)*renoBeta = 0` — only so that the Lean kernel never unfolds
+`Nat.log2` on a symbolic argument when it compares sender states; the value is the same.) -/
+def renoCut : Nat → Nat
+  | 0 => 0
+  | w + 1 => rne53 (rne53 (w + 1) * renoBetaMant) / 2 ^ renoBetaShift
 
 end Uquic.Model.Cong
